@@ -96,6 +96,33 @@ def groups(tier):
             for pn in (None, 0, 0xFFFFFFFE, 7):
                 for frames in (1, 2, 3):
                     out.append(("G6", dict(c, content=content, first_pic_num=pn, frames=frames)))
+    # G7 every colour-spec triple, preset frame rate, pixel aspect ratio and signal range (one core config per mode)
+    from vc2_data_tables import PRESET_FRAME_RATES, PRESET_PIXEL_ASPECT_RATIOS, PRESET_SIGNAL_RANGES, PresetColorPrimaries, PresetColorMatrices, PresetTransferFunctions
+
+    for mode in MODES:
+        c = dict(mode=mode, wavelet_index=4, wavelet_index_ho=4, dwt_depth=1, dwt_depth_ho=0)
+        for p in PresetColorPrimaries:
+            for m in PresetColorMatrices:
+                for t in PresetTransferFunctions:
+                    out.append(("G7", dict(c, color_primaries_index=int(p), color_matrix_index=int(m), transfer_function_index=int(t))))
+        for i, fr in sorted(PRESET_FRAME_RATES.items()):
+            out.append(("G7", dict(c, frame_rate_numer=fr.numerator, frame_rate_denom=fr.denominator)))
+        for i, r in sorted(PRESET_PIXEL_ASPECT_RATIOS.items()):
+            out.append(("G7", dict(c, pixel_aspect_ratio_numer=r.numerator, pixel_aspect_ratio_denom=r.denominator)))
+        for i, sr in sorted(PRESET_SIGNAL_RANGES.items()):
+            out.append(("G7", dict(c, luma_offset=sr.luma_offset, luma_excursion=sr.luma_excursion, color_diff_offset=sr.color_diff_offset, color_diff_excursion=sr.color_diff_excursion)))
+    # G8 slice lengths around the 8-bit length-field boundaries: one slice, untransformed,
+    # flat extreme pictures of every width (16 bits per 8-bit sample -> 16*w bytes per component)
+    for mode in ("hqll", "hq"):
+        for w in range(1, 35):
+            for content in ("max", "min", "noise"):
+                for bits10 in (False, True):
+                    c = dict(mode=mode, wavelet_index=4, wavelet_index_ho=4, dwt_depth=0, dwt_depth_ho=0, slices_x=1, slices_y=1, frame_width=w, frame_height=8, content=content)
+                    if bits10:
+                        c.update(luma_offset=0, luma_excursion=1023, color_diff_offset=512, color_diff_excursion=1023)
+                    if mode == "hq":
+                        c["picture_bytes"] = 3 * 20 * w + 8
+                    out.append(("G8", c))
     return out
 
 
